@@ -1,6 +1,7 @@
 """C35 — logical plans and expressions survive serialization unchanged: enum tag round trips."""
 from tagtab import *
 import strtab
+import protocov
 
 TECHNIQUE = 'static analysis: exhaustive evaluation (A1) of every standalone domain<->protobuf enum conversion pair; operator wire-name round trip'
 EXPLANATION = ('Every pair of standalone conversion functions between a fieldless domain enum and its protobuf enum (JoinType, '
@@ -8,8 +9,12 @@ EXPLANATION = ('Every pair of standalone conversion functions between a fieldles
                'CompressionTypeVariant, CsvQuoteStyle, JoinSide, ...; discovered from the signatures of all functions in the '
                'workspace) is evaluated for every variant: decode(encode(v)) = v by variant name (an encoder may refuse a variant '
                'with an explicit error, never map it to a different one). Operator::from_proto_name(name of variant) returns that '
-               'variant for every Operator (the encoder writes the Debug name). Field-level encoder/decoder coverage and textual '
-               'equality of whole plans are not decided.')
+               'variant for every Operator (the encoder writes the Debug name). Field-level agreement: for each of the 40 messages built by '
+               'LogicalPlanNode::try_from_logical_plan and the 36 built by serialize_expr (closures included), no field is filled with a '
+               'constant / None / empty container, and every field is read somewhere in the call tree (depth 3) of try_into_logical_plan / '
+               'parse_expr; reads are attributed through enum payloads, boxes and references by the owner type of each field projection. '
+               'Exceptions are frozen per (message, field) with the reason read in the source (rules/protocov.py). Whether the value written '
+               'is the right one, and textual equality of whole plans, are not decided.')
 ASSUMPTIONS = ['derive(Debug) prints the variant name of a fieldless enum (the wire name of Operator)']
 
 OP = 'datafusion_expr_common::operator::Operator'
@@ -41,6 +46,10 @@ def run(ctx):
             ctx.fail('operator-wire-name', fn.rsplit('::', 1)[-1], ctx.loc(rec), 'operators whose wire name does not decode to themselves: %s' % badv, key='operator-wire-name|' + fn)
         else:
             ctx.ok('operator-wire-name', fn.rsplit('::', 1)[-1], sample={'fn': fn, 'variants': len(f.adts[OP]['variants'])})
+    # field-level agreement of the logical plan / expression encoders and decoders
+    L = '<datafusion_proto_models::generated::datafusion::LogicalPlanNode as datafusion_proto::logical_plan::AsLogicalPlan>::'
+    protocov.check_roots(ctx, 'LogicalPlan', L + 'try_from_logical_plan', L + 'try_into_logical_plan', min_messages=35)
+    protocov.check_roots(ctx, 'Expr', 'datafusion_proto::logical_plan::to_proto::serialize_expr', 'datafusion_proto::logical_plan::from_proto::parse_expr', min_messages=30)
     # selftest
     import common
     st = ctx.st
